@@ -163,6 +163,15 @@ CLAIMS = {
              'the dialect semantics of the specification library, so agreement between dialects is the corollary; plus boolean / NULL / integer literal forms per dialect value class.',
         note='No PostgreSQL / MySQL / Oracle server or driver is available: server behaviour is represented by documented-semantics clauses (assumed contracts on dependencies; SQLite clauses are '
              'validated against the real engine). Only mechanisms under contract are compared, not whole queries. Known findings of C25 / C06 reappear here.'),
+    'C17': dict(
+        text='PARTIAL proof of the proviso under which crash atomicity is the database\'s own guarantee: on the real Database._exec_sql / SessionCache (prepare_connection, connect, reconnect, '
+             'flush, flush_and_commit, commit, close) / db_session exit / provider set_transaction_mode, commit, rollback, drop, release and pools, with the DB-API connection a ledger stub '
+             '(SQLite, PostgreSQL, generic), for every DB-API fault point of sessions of reads and writes: the durable writes are none or all of the writes issued (all if the session reported '
+             'success, none if its body raised), no write runs in autocommit mode, everything durable came from one transaction; _exec_sql never moves a session with pending writes to another '
+             'connection; every write call site of core.py (created / updated / deleted via SessionCache.flush and Entity.flush, m2m add / remove, bulk delete, Database.execute / insert) '
+             'reaches _exec_sql with start_transaction=True or cache.immediate set (all call sites from the AST exercised).',
+        note='Crash points and the file contents seen by a new process are NOT explored (outside the technique): they reduce to the database\'s transaction guarantee under the clauses proved. '
+             'Trusted: the ledger model of DB-API connections; one database per session; the body stops at its first exception.'),
 }
 
 _NOT_BUILT = 'within reach of the technique per DESIGN.md, check not built yet'
